@@ -57,7 +57,7 @@ typedef struct tmr {
 
 typedef struct ttrial {
 	tmr_t *tm; int n;
-	dispatch_queue_t qs[3];
+	dispatch_queue_t qs[5];   /* serial, concurrent, global, workloop, serial over (serial | workloop) */
 	_Atomic uint64_t must_fire_done, cancel_done, after_done, fires_total, rearms, rearms_suspended, rearms_from_target, clock_switches, early;
 	uint64_t salt;
 	vf_profile_t prof;
@@ -213,6 +213,12 @@ static void run_trial(int idx)
 	t->qs[0] = dispatch_queue_create("vf.timer.serial", DISPATCH_QUEUE_SERIAL);
 	t->qs[1] = dispatch_queue_create("vf.timer.conc", DISPATCH_QUEUE_CONCURRENT);
 	t->qs[2] = dispatch_get_global_queue(DISPATCH_QUEUE_PRIORITY_DEFAULT, 0);
+	t->qs[3] = (dispatch_queue_t)dispatch_workloop_create("vf.timer.workloop");
+	{
+		dispatch_queue_t base = vf_rnd_n(&r, 2) ? dispatch_queue_create("vf.timer.base", DISPATCH_QUEUE_SERIAL) : (dispatch_queue_t)dispatch_workloop_create("vf.timer.base-workloop");
+		t->qs[4] = dispatch_queue_create_with_target("vf.timer.serial-over-serial", DISPATCH_QUEUE_SERIAL, base);
+		dispatch_release(base);
+	}
 	static const int pops[] = { 1, 3, 9, 20, 40, 70, 150, 300, 500 };
 	t->n = pops[vf_rnd_n(&r, 9)];
 	if (vf_opts.scale < 100 && t->n > 150) t->n = 150;
@@ -220,7 +226,7 @@ static void run_trial(int idx)
 	uint64_t must = 0;
 	for (int i = 0; i < t->n; i++) {
 		tmr_t *m = &t->tm[i];
-		m->t = t; m->clk = (int)vf_rnd_n(&r, 3); m->qi = (int)vf_rnd_n(&r, 3);
+		m->t = t; m->clk = (int)vf_rnd_n(&r, 3); m->qi = (int)vf_rnd_n(&r, 5);
 		vf_rng_seed(&m->rng, t->salt, (uint64_t)i);
 		m->ds = dispatch_source_create(DISPATCH_SOURCE_TYPE_TIMER, 0, vf_rnd_n(&r, 4) == 0 ? DISPATCH_TIMER_STRICT : 0, t->qs[m->qi]);
 		if (!m->ds) vf_fail("dispatch_source_create(TIMER) failed");
@@ -251,8 +257,8 @@ static void run_trial(int idx)
 		int64_t delta = vf_rnd_n(&r, 8) == 0 ? -(int64_t)vf_rnd_n(&r, 1000000) : (int64_t)vf_rnd_range(&r, 0, 80000000) * vf_opts.scale / 100;
 		dispatch_time_t when = vf_make_deadline(a->clk, delta, (int)vf_rnd_n(&r, 2));
 		a->deadline = vf_decode_time(when).value;
-		if (vf_rnd_n(&r, 2)) dispatch_after_f(when, t->qs[vf_rnd_n(&r, 3)], a, after_body);
-		else dispatch_after(when, t->qs[vf_rnd_n(&r, 3)], ^{ after_body(a); });
+		if (vf_rnd_n(&r, 2)) dispatch_after_f(when, t->qs[vf_rnd_n(&r, 5)], a, after_body);
+		else dispatch_after(when, t->qs[vf_rnd_n(&r, 5)], ^{ after_body(a); });
 	}
 	/* foreign history while timers fire: suspend/resume pairs and cancels on random members */
 	int hist = t->n / 2 + 2;
@@ -260,7 +266,7 @@ static void run_trial(int idx)
 		tmr_t *m = &t->tm[vf_rnd_n(&r, (uint32_t)t->n)];
 		uint32_t c = vf_rnd_n(&r, 4);
 		if (c == 3) {
-			if (m->qi == 0 && !atomic_load(&m->cancelled)) dispatch_async_f(t->qs[0], m, rearm_from_target_item);
+			if ((m->qi == 0 || m->qi >= 3) && !atomic_load(&m->cancelled)) dispatch_async_f(t->qs[m->qi], m, rearm_from_target_item);
 		} else if (c == 0 && !atomic_load(&m->cancelled)) {
 			dispatch_suspend(m->ds);
 			vf_spin_ns(vf_rnd_n(&r, 200000));
@@ -308,8 +314,9 @@ static void run_trial(int idx)
 			t->n >= 9 ? "true" : "false", idx, t->n, (unsigned long long)must, (unsigned long long)atomic_load(&t->fires_total),
 			(unsigned long long)atomic_load(&t->rearms), na, (unsigned long long)atomic_load(&h_maxcount), t->prof.desc);
 	/* let the sources finish disposing before the queues go away */
-	dispatch_barrier_sync(t->qs[0], ^{}); dispatch_barrier_sync(t->qs[1], ^{});
-	dispatch_release(t->qs[0]); dispatch_release(t->qs[1]);
+	dispatch_barrier_sync(t->qs[0], ^{}); dispatch_barrier_sync(t->qs[1], ^{}); dispatch_barrier_sync(t->qs[4], ^{});
+	dispatch_async_and_wait(t->qs[3], ^{});
+	dispatch_release(t->qs[0]); dispatch_release(t->qs[1]); dispatch_release(t->qs[3]); dispatch_release(t->qs[4]);
 	free(af);
 	/* timer contexts may still be referenced by a late resume block: keep t->tm until the process ends (bounded leak) */
 	(void)nf;
